@@ -34,6 +34,27 @@ func (it *Interp) decRender(x *Term) *StrV {
 		pow = new(big.Int).Mul(pow, big.NewInt(10))
 	}
 	bs := make([]*Term, n)
+	if n > decExactDigits {
+		// long numbers: the digits are uninterpreted; what strconv guarantees about them is stated as axioms
+		// (every byte is a digit, the text determines the number, ParseUint inverts it - see parseUintB).
+		for i := 0; i < n; i++ {
+			b := App("decdigit", bvSort(8), x, BVu(8, uint64(n-1-i)))
+			bs[i] = b
+			it.p.assertAxiom(And(BVCmp("bvuge", b, BVu(8, '0')), BVCmp("bvule", b, BVu(8, '9'))))
+		}
+		it.p.assertAxiom(Not(Eq(bs[0], BVu(8, '0'))))
+		for _, o := range it.p.decs {
+			if len(o.bytes) == n && o.x != x {
+				same := TTrue
+				for i := range bs {
+					same = And(same, Eq(bs[i], o.bytes[i]))
+				}
+				it.p.assertAxiom(Implies(same, Eq(x, o.x)))
+			}
+		}
+		it.p.decs = append(it.p.decs, decRendering{x: x, bytes: bs})
+		return &StrV{Bytes: bs, IsB: true}
+	}
 	d := big.NewInt(1)
 	for i := n - 1; i >= 0; i-- {
 		q := BVBin("bvudiv", x, BV(64, d))
@@ -42,6 +63,45 @@ func (it *Interp) decRender(x *Term) *StrV {
 		d = new(big.Int).Mul(d, big.NewInt(10))
 	}
 	return &StrV{Bytes: bs, IsB: true}
+}
+
+// decExactDigits: numbers of up to this many decimal digits are rendered with exact bit-vector arithmetic.
+const decExactDigits = 4
+
+type decRendering struct {
+	x     *Term
+	bytes []*Term
+}
+
+// renderedNumber: the bytes are exactly a long-number rendering made by decRender.
+func (p *Path) renderedNumber(bs []*Term) *Term {
+	for _, o := range p.decs {
+		if len(o.bytes) != len(bs) {
+			continue
+		}
+		same := true
+		for i := range bs {
+			if bs[i] != o.bytes[i] {
+				same = false
+				break
+			}
+		}
+		if same {
+			return o.x
+		}
+	}
+	return nil
+}
+
+// decRenderSigned: the decimal text of a signed 64-bit value ("-" and the magnitude for negative ones).
+func (it *Interp) decRenderSigned(x *Term) *StrV {
+	if x.w < 64 {
+		x = SignExt(64, x)
+	}
+	if it.p.branch(BVCmp("bvslt", x, BVu(64, 0))) {
+		return it.strConcat(strLit("-"), it.decRender(BVNeg(x)))
+	}
+	return it.decRender(x)
 }
 
 // isPlainB: structured bytes without opaque parts
@@ -311,6 +371,9 @@ func init() {
 		if x.IsConst() {
 			return strLit(signed(64, x.val).String())
 		}
+		if it.ex.cfg.ExactDecimal {
+			return it.decRenderSigned(x)
+		}
 		t := App("itoa_s", SStr, x)
 		it.p.noteInjective("itoa_s", t)
 		return &StrV{T: t}
@@ -319,6 +382,12 @@ func init() {
 		x := a[0].(*Term)
 		if x.IsConst() {
 			return strLit(signed(64, x.val).String())
+		}
+		if b := a[1].(*Term); !b.IsConst() || b.val.Int64() != 10 {
+			it.fail("FormatInt base != 10")
+		}
+		if it.ex.cfg.ExactDecimal {
+			return it.decRenderSigned(x)
 		}
 		t := App("itoa_s", SStr, x)
 		it.p.noteInjective("itoa_s", t)
@@ -554,6 +623,9 @@ func (it *Interp) parseUintB(s *StrV, bits int) Val {
 	fail := Tuple{BVu(64, 0), it.newErr(IfaceV{}, "strconv.ParseUint")}
 	if n == 0 {
 		return fail
+	}
+	if x := it.p.renderedNumber(s.Bytes); x != nil && bits == 64 {
+		return Tuple{x, IfaceV{}} // strconv: ParseUint(FormatUint(x, 10), 10, 64) == x
 	}
 	// all bytes digits?
 	okT := TTrue
